@@ -67,10 +67,31 @@ pub fn emit_hash(bytes: &[u8]) -> Option<u64> {
 
 pub fn check(_ctx: &Ctx, input: &Input) -> CaseResult {
     let mut out = CaseOut::default();
-    let p = match prepare(input) {
+    let mut p = match prepare(input) {
         Some(p) => p,
         None => return Ok(out),
     };
+    // sections walrus interprets but can only partly read (it warns and keeps
+    // what it read): a `producers` section whose second field is truncated, a
+    // `name` section whose second subsection is; whatever walrus makes of them
+    // must be stable from the first output on
+    match fnv(&p.bytes) % 8 {
+        5 => {
+            let payload = [&[9u8][..], b"producers", &[2, 8], b"language", &[1, 1, b'C', 1, b'1', 10], b"proc"].concat();
+            p.bytes.push(0);
+            p.bytes.push(payload.len() as u8);
+            p.bytes.extend(payload);
+            out.label("input:half-readable-producers-section");
+        }
+        6 => {
+            let payload = [&[4u8][..], b"name", &[1, 4, 1, 0, 1, b'z', 2, 5, 1, 0]].concat();
+            p.bytes.push(0);
+            p.bytes.push(payload.len() as u8);
+            p.bytes.extend(payload);
+            out.label("input:half-readable-name-section");
+        }
+        _ => {}
+    }
     out.hash = fnv(&p.bytes);
     if let Some(s) = &p.spec {
         feature_labels(&mut out, s);
